@@ -279,6 +279,29 @@ def _from(vm, cal, args):
     raise Unmodelled("conversion %s -> %s" % (src, target))
 
 
+@reg(('*', 'TryInto', 'try_into'), ('*', 'TryFrom', 'try_from'))
+def _try_into(vm, cal, args):
+    v = args[0]
+    if cal.method == 'try_into':
+        target = generic_args(cal.trait_full)[0]
+    else:
+        target = cal.self_ty
+    tb = base_name(target)
+    if isinstance(v, I) and tb in INT_TYPES:
+        bits, signed = INT_TYPES[tb]
+        conv = vm.cast(v, tb, 'IntToInt')
+        back = vm.cast(conv, None, 'IntToInt') if False else None
+        # fits iff converting back (with the target's signedness) gives the same mathematical value
+        wide = max(bits, v.bits) + 1
+        def ext(x):
+            return z3.SignExt(wide - x.bits, x.e) if x.signed else z3.ZeroExt(wide - x.bits, x.e)
+        fits = ext(v) == ext(conv)
+        if vm.branch(fits):
+            return OK(conv)
+        return ERR(Opaque('TryFromIntError', 'e'))
+    raise Unmodelled("try_into %r -> %s" % (v, target))
+
+
 @reg(('Error', None, 'downcast_ref'))
 def _downcast_ref(vm, cal, args):
     r = as_ref(args[0])
